@@ -10,4 +10,15 @@ git -C /repo checkout -- .
 echo "seed=$ID property=$PROP tier=$TIER exit=$RC"
 grep -E "^(VIOLATION|KNOWN-FINDING)" /tmp/seed/$ID.$PROP.check.out | cut -c1-200
 grep -E "signature:" /tmp/seed/$ID.$PROP.check.err | head -5
+python3 - "$ID" "$PROP" "$TIER" "$RC" <<'PY'
+import json,sys,re
+id,prop,tier,rc=sys.argv[1:5]
+f=f'/verif/seeded/{id}/meta.json'
+m=json.load(open(f))
+sigs=[l.split('signature:')[1].strip() for l in open(f'/tmp/seed/{id}.{prop}.check.err') if 'signature:' in l]
+runs=[r for r in m.get('checks_run',[]) if not (r.get('check')==f"./check {prop} {tier}")]
+runs.append({"check":f"./check {prop} {tier}","applied_with":f"git -C /repo apply seeded/{id}/patch.diff","exit":int(rc),"detected":int(rc)==1,"new_violation_signatures":sigs[:8]})
+m['checks_run']=runs
+json.dump(m,open(f,'w'),indent=1)
+PY
 exit $RC
